@@ -157,6 +157,13 @@ def run(tier):
     behs.append({'cfg': {'I': 1, 'N': 1, 'C': 3}, 'T0': 5, 'steps': [
         {'a': 'job', 'job': 1, 'delete': False, 'trials': 5}, {'a': 'extend', 'trials': 6},
         {'a': 'job', 'job': 1, 'delete': False, 'trials': 6}]})
+    # the script written WITHOUT --n-cores (it then names every CPU of the machine), run on
+    # a node where the scheduler leaves the job two CPUs
+    import multiprocessing as _mp
+    ncpu = _mp.cpu_count()
+    for cl_, I_ in (('slurm', 2), ('sge', 3)):
+        behs.append({'cfg': {'I': I_, 'N': 1, 'C': ncpu}, 'T0': 2 * ncpu, 'affinity': 2, 'cores_omitted': True,
+                     'steps': [{'a': 'job', 'job': 1, 'trials': 2 * ncpu, 'delete': False, 'via': cl_}]})
     precs = pipeline.run_all(behs, procs=6)
     for j, r in enumerate(precs):
         r['id'] = j
